@@ -66,6 +66,14 @@ func c05Doc(seed uint64, d int, workDir string) *document.Document {
 			im := gen.MakeImage("png", 9000+i, 120, 120)
 			s.Doc.AddImageFromData(im.Data, "big.png", document.ImageFormatPNG, 120, 120, nil)
 		}
+		// parts larger than the compressor's 64 KiB window that compress badly: only then does the ZIP writer hand data to the
+		// file while a part is still being written (a smaller part is emitted when the next entry is created or at close), so
+		// only then can a write failure surface in the middle of a part
+		im := gen.MakeImage("png", 9100+d, 230, 230)
+		s.Doc.AddImageFromData(im.Data, "huge.png", document.ImageFormatPNG, 230, 230, nil)
+		for i, n := 0, r.Range(400, 900); i < n; i++ {
+			s.Doc.AddParagraph(gen.RandomHex(r, 200))
+		}
 	}
 	if s.Panic != nil {
 		d2 := document.New()
